@@ -491,7 +491,184 @@ def live_recordlayer(ctx, cfg, receiver, only_spec=None, variant=0):
     # honest records are accepted in order (the left disjunct is reachable)
     for k, rec in enumerate(sent):
         judge_rl(ctx, cfg, receiver, cfgm, pr, conn, states, truth, dict(kind="honest", k=k), k, rec, label)
+    # keyed faulty peer: degenerate records built with the REAL peer's write state, presented after the window
+    ws = peer_write_state(L, receiver)
+    for (nm, rec, expect) in craft_keyed(ws, cfg["ver"], T.is13(cfgm), conn._recordLayer.recv_record_limit, rng):
+        res = rl_recv(conn, states[-1], rec)
+        ctx.case(key=("L1K", label, receiver, nm), sample=None)
+        judge_keyed(ctx, "L1", label, nm, res, expect,
+                    dict(stage="L2", cfg=jcfg(cfg), receiver=receiver, cls="keyed:" + nm, mode="read"))
 
+
+
+# ------------------------------------------------------------------------------------------------
+# keyed faulty peer: structurally degenerate records that are CORRECTLY authenticated / encrypted
+
+def craft_keyed(ws, ver, tls13, recv_limit, rng):
+    """`ws` is the peer's write state (a ConnectionState with real or toy objects; it is only copied).
+    Yields (name, (header type, header version, body), expect) with expect one of
+      'reject'                       the record layer must refuse it
+      ('accept', type, plaintext)    it IS a record the peer protected: the record layer yields exactly that
+      ('conn-reject', type, plain)   the record layer yields it, the connection must refuse it (bad type)"""
+    seq8 = ws.seqnum.to_bytes(8, "big")
+    enc, macc = ws.encContext, ws.macContext
+    hver = (3, 3) if tls13 else tuple(ver)
+
+    def rnd(n):
+        return rb(rng, n)
+
+    def mac(t, data):
+        m = macc.copy()
+        m.update(seq8)
+        m.update(bytes([t]))
+        if tuple(ver) != (3, 0):
+            m.update(bytes(ver))
+        m.update(len(data).to_bytes(2, "big"))
+        m.update(bytes(data))
+        return bytes(m.digest())
+
+    def encrypt(pt):
+        e = copy.deepcopy(enc)
+        return bytes(e.encrypt(bytearray(pt)))
+
+    dlen = macc.digest_size if macc is not None else 0
+    if enc is None:
+        if macc is not None:
+            for n in sorted({0, 1, dlen - 1}):
+                yield ("null-shorter-than-mac-%d" % n, (23, hver, rnd(n)), "reject")
+            yield ("null-mac-only", (23, hver, mac(23, b"")), ("accept", 23, b""))
+        return
+    if enc.isAEAD:
+        tag = enc.tagLength
+        name = enc.name
+        explicit = ("aes" in name) and not tls13
+        fixed = bytes(ws.fixedNonce)
+        if tls13 or (name == "chacha20-poly1305" and len(fixed) == 12):
+            padded = bytes(len(fixed) - 8) + seq8
+            nonce = bytes(a ^ b for a, b in zip(padded, fixed))
+        else:
+            nonce = fixed + seq8
+
+        def seal(pt, aad):
+            return bytes(enc.seal(bytearray(nonce), bytearray(pt), bytearray(aad)))
+        if not tls13:
+            def rec12(t, pt):
+                aad = seq8 + bytes([t, ver[0], ver[1], len(pt) >> 8, len(pt) & 0xff])
+                return (t, hver, (seq8 if explicit else b"") + seal(pt, aad))
+            if explicit:
+                yield ("aead12-explicit-nonce-only", (23, hver, seq8), "reject")
+                yield ("aead12-explicit-nonce-short", (23, hver, seq8[:5]), "reject")
+                yield ("aead12-nonce-plus-short-tag", (23, hver, seq8 + rnd(tag - 1)), "reject")
+            yield ("aead12-empty-body", (23, hver, b""), "reject")
+            yield ("aead12-short-tag", (23, hver, rnd(tag - 1)), "reject")
+            yield ("aead12-empty-plaintext", rec12(23, b""), ("accept", 23, b""))
+            yield ("aead12-empty-handshake", rec12(22, b""), ("conn-reject", 22, b""))
+            yield ("aead12-heartbeat-type", rec12(24, b"x"), ("accept", 24, b"x"))   # malformed heartbeats are dropped by design (RFC 6520)
+            return
+
+        def rec13(inner):
+            n = len(inner) + tag
+            return (23, (3, 3), seal(inner, bytes([23, 3, 3, n >> 8, n & 0xff])))
+        yield ("tls13-inner-all-zero", rec13(bytes(5)), "reject")
+        yield ("tls13-inner-empty", rec13(b""), "reject")
+        # a content type 0 cannot be expressed: it reads as padding, the byte before it becomes the type
+        yield ("tls13-inner-type-0-is-padding", rec13(b"ab" + bytes([99]) + b"\x00"), ("conn-reject", 99, b"ab"))
+        yield ("tls13-inner-unknown-type", rec13(b"abc" + bytes([99])), ("conn-reject", 99, b"abc"))
+        yield ("tls13-inner-type-ccs", rec13(b"\x01" + bytes([20])), ("conn-reject", 20, b"\x01"))
+        yield ("tls13-inner-empty-handshake", rec13(bytes([22]) + bytes(3)), ("conn-reject", 22, b""))
+        yield ("tls13-inner-oversize-fragment", rec13(rnd(recv_limit + 1) + bytes([23])), "reject")
+        yield ("tls13-inner-oversize-padding", rec13(b"abc" + bytes([23]) + bytes(recv_limit)), "reject")
+        yield ("tls13-inner-max", rec13(rnd(min(recv_limit, 40)) + bytes([23]) + bytes(3)),
+               ("accept", 23, None))
+        return
+    if enc.isBlockCipher:
+        bs = enc.block_size
+        iv = rnd(bs) if tuple(ver) >= (3, 2) else b""
+        if ws.encryptThenMAC:
+            cts = [("empty", b""), ("one-block", encrypt(rnd(bs))),
+                   ("iv-plus-block-pad-exceeds", encrypt(iv + rnd(bs - 1) + b"\xff")),
+                   ("iv-plus-block-pad-eq-len", encrypt(iv + rnd(bs - 1) + bytes([bs]))),
+                   ("iv-plus-block-bad-pad-bytes", encrypt(iv + rnd(bs - 3) + bytes([9, 2, 2]))),
+                   ("not-multiple", rnd(5)), ("block-plus-one", encrypt(iv + rnd(bs)) + b"\x00"),
+                   ("iv-only", encrypt(iv) if iv else encrypt(rnd(bs - 1) + b"\x00"))]
+            for nm, ct in cts:
+                exp = "reject"
+                if nm == "iv-only" and not iv:
+                    exp = ("accept", 23, None)       # TLS 1.0: a block ending in 00 is data + empty padding
+                yield ("etm-%s-correct-mac" % nm, (23, hver, ct + mac(23, ct)), exp)
+            yield ("etm-mac-only-wrong", (23, hver, rnd(dlen)), "reject")
+            yield ("etm-shorter-than-mac", (23, hver, rnd(dlen - 1)), "reject")
+            return
+        bodies = [("empty", b""), ("iv-only" if iv else "one-block", encrypt(rnd(bs))),
+                  ("shorter-than-mac-plus-1", encrypt(iv + rnd(bs * max(1, dlen // bs)))),
+                  ("pad-longer-than-record", encrypt(iv + rnd(2 * bs - 1) + b"\xff")),
+                  ("pad-exact-record", encrypt(iv + bytes([2 * bs - 1]) * (2 * bs))),
+                  ("not-multiple", rnd(bs + 1))]
+        for nm, body in bodies:
+            yield ("mte-cbc-%s" % nm, (23, hver, body), "reject")
+        return
+    # stream cipher
+    for n in sorted({0, 1, dlen - 1, dlen}):
+        yield ("stream-len-%d" % n, (23, hver, encrypt(rnd(n))), "reject")
+    yield ("stream-mac-only", (23, hver, encrypt(mac(23, b""))), ("accept", 23, b""))
+
+
+def judge_keyed(ctx, where, label, name, res, expect, rep):
+    """oracle for a keyed-faulty-peer record at record-layer level; res = ('ok', t, p, ..) | ('err', name)"""
+    ctx.count("%s:keyed:%s" % (where, res[0] if res[0] == "ok" else res[1]))
+    if res[0] == "err":
+        if res[1].startswith("python:") or res[1] not in DOCUMENTED:
+            ctx.violation("c02:keyed-record-python-exception" if res[1].startswith("python:") else "c02:undocumented-error",
+                          "a correctly keyed but degenerate record (%s) made the record layer raise %s instead of a "
+                          "documented integrity/decoding error [%s]" % (name, res[1], label), rep)
+        elif expect != "reject":
+            ctx.violation("c02:honest-rejected", "record %s is a valid protection of (type %d) and was rejected with %s [%s]"
+                          % (name, expect[1], res[1], label), rep)
+        return
+    t, p = res[1], res[2]
+    if expect == "reject":
+        ctx.violation("c02:accepted-degenerate:" + name.split("-")[0],
+                      "degenerate record %s accepted as (type %d, %d bytes) [%s]" % (name, t, len(p), label), rep)
+    elif t != expect[1] or (expect[2] is not None and p != expect[2]):
+        ctx.violation("c02:accepted-not-next:keyed", "record %s yields (type %d, %d bytes), the peer protected (type %d, %s) [%s]"
+                      % (name, t, len(p), expect[1], "%d bytes" % len(expect[2]) if expect[2] is not None else "…", label), rep)
+
+
+def toy_keyed(ctx):
+    """keyed faulty peer on the toy primitives: real RecordLayer vs model, and the oracle"""
+    lc = ctx.lean()
+    rng = ctx.rng
+    lines, exp, meta = [], [], []
+    for name, cfg, pr in T.path_configs(rng, ctx.thorough()):
+        if cfg["cipher"] == "null" and not cfg["hasMac"]:
+            continue
+        for seq in (0, 7):
+            cs = {"null": b"", "aead": b"", "stream": rng.randrange(0, 10 ** 5).to_bytes(8, "big"),
+                  "block": rb(rng, pr["bs"])}[cfg["cipher"]]
+            for limit in (16384, 64):
+                ws = T.make_state(cfg, pr, seq, cs)
+                for (nm, (t, v, body), expect) in craft_keyed(ws, cfg["ver"], T.is13(cfg), limit, rng):
+                    rr = T.real_recv(cfg, pr, seq, cs, False, 0, 0, limit, t, v, body)
+                    case = dict(stage="toy-keyed", name=name, craft=nm, ver=list(cfg["ver"]), seq=seq, limit=limit)
+                    ctx.case(key=("toy-keyed", name, cfg["ver"], nm, seq, limit, body), sample=None)
+                    res = ("ok", rr[5], rr[6]) if rr[0] == "ok" else ("err", rr[1] if rr[0] == "err" else rr[0])
+                    judge_keyed(ctx, "toy", "%s %s" % (name, cfg["ver"]), nm, res, expect, case)
+                    lines.append(T.recv_line(cfg, pr, seq, cs, False, 0, 0, limit, t, v, body))
+                    exp.append(rr)
+                    meta.append(case)
+    if lc is not None and lines:
+        out = lc.batch(lines)
+        for o, e, m in zip(out, exp, meta):
+            ctx.compared()
+            mo = T.parse_recv_reply(o)
+            e2 = ("ok", e[1], T.norm_cs(e[2])) + tuple(e[3:]) if e[0] == "ok" else e
+            if mo != e2:
+                ctx.disagree("toy-keyed-recvRecord", m, o[:200], repr(e2)[:200])
+
+
+def peer_write_state(L, receiver):
+    sender = "client" if receiver == "server" else "server"
+    return snap_state(L.end(sender).conn._recordLayer._writeState)
 
 # ------------------------------------------------------------------------------------------------
 # (L2) connection level: alert on the wire, closed, not resumable, no data delivered
@@ -653,7 +830,21 @@ def live_connection_case(ctx, cfg, receiver, cls, mode, payloads=None):
     d = "c2s" if sender == "client" else "s2c"
     rep = dict(stage="L2", cfg=jcfg(cfg), receiver=receiver, cls=cls, mode=mode)
     known_key = None
-    if cls in ("plaintext-alert-at-seq0", "plaintext-alert-after-data", "old-key-after-keyupdate"):
+    if cls.startswith("keyed:"):
+        L = R.connect(cfg)
+        if L.client.state != "done" or L.server.state != "done":
+            return
+        R.drain_post_handshake(L)
+        conn = L.end(receiver).conn
+        ws = peer_write_state(L, receiver)
+        chosen = [c for c in craft_keyed(ws, cfg["ver"], cfg["ver"] >= (3, 4), conn._recordLayer.recv_record_limit, rng)
+                  if c[0] == cls[6:]]
+        if not chosen or (chosen[0][2] != "reject" and chosen[0][2][0] == "accept"):
+            return
+        L.link.inject(d, wire(chosen[0][1]))
+        expect = set(DOCUMENTED) if chosen[0][2] == "reject" else {"unexpected_message"}
+        pre = b""
+    elif cls in ("plaintext-alert-at-seq0", "plaintext-alert-after-data", "old-key-after-keyupdate"):
         L = R.connect(cfg)
         if L.client.state != "done" or L.server.state != "done":
             return
@@ -820,6 +1011,16 @@ def live_streams(ctx):
                 for mode in modes:
                     who = rng.choice(["client", "server"])
                     live_connection_case(ctx, cfg, who, cls, mode)
+            # keyed faulty peer at connection level: every must-reject / bad-type record of this path
+            probe = R.connect(cfg)
+            if probe.client.state == "done" and probe.server.state == "done":
+                names = [c[0] for c in craft_keyed(peer_write_state(probe, "server"), cfg["ver"], cfg["ver"] >= (3, 4), 16384, rng)
+                         if c[2] == "reject" or c[2][0] == "conn-reject"]
+                if not ctx.thorough() and cfg["cipher"] in R.SLOW:
+                    names = names[:3]
+                for n, nm in enumerate(names):
+                    live_connection_case(ctx, cfg, ("client", "server")[(n + i) % 2], "keyed:" + nm,
+                                         ("read", "getmsg")[(n // 2 + i) % 2])
             if cfg["ver"] >= (3, 4):
                 # unprotected ChangeCipherSpec after the handshake: both roles x {client with / without a
                 # certificate, server with / without reqCert} x {before / after the first protected record}
@@ -849,6 +1050,7 @@ def run(ctx):
                        "early_data_ok (TLS 1.3 server right after ClientHello) makes undecryptable records non-fatal by design; "
                        "covered by the toy stream and early_data_skip_safe, not by the live streams (which start after the handshake)"]
     toy_decisions(ctx)
+    toy_keyed(ctx)
     live_streams(ctx)
     ctx.extra.pop("_variant", None)
 
@@ -858,6 +1060,8 @@ def replay(ctx, rep):
     st = inp.get("stage")
     if st == "L1":
         live_recordlayer(ctx, ucfg(inp["cfg"]), inp["receiver"], only_spec=inp["spec"], variant=inp.get("variant", 0))
+    elif st == "toy-keyed":
+        toy_keyed(ctx)
     elif st == "L2":
         live_connection_case(ctx, ucfg(inp["cfg"]), inp["receiver"], inp["cls"], inp["mode"])
     else:
